@@ -42,3 +42,30 @@ Proof. intros []; simpl; tauto. Qed.
 (* the regenerated table is exactly the model's table, row for row and in source order *)
 Lemma tie_kem_lengths : gen_hpke_kemLengths = map model_row all_kems.
 Proof. vm_compute. reflexivity. Qed.
+
+(* ---- the same regenerated constants against the tables transcribed from the
+   documents themselves (model/HpkeRfc.v: RFC 9180 Tables 2, 3, 5; IANA HPKE KEM
+   registry / draft-ietf-hpke-pq / draft-connolly-cfrg-xwing-kem-10 for the last
+   three rows) ---- *)
+From Tink Require HpkeRfc.
+
+Definition rfc_row (r : HpkeRfc.kem_row) : N * list (string * N) :=
+  (HpkeRfc.r_id r, [("nSecret"%string, N.of_nat (HpkeRfc.r_Nsecret r)); ("nEnc"%string, N.of_nat (HpkeRfc.r_Nenc r));
+                    ("nPK"%string, N.of_nat (HpkeRfc.r_Npk r)); ("nSK"%string, N.of_nat (HpkeRfc.r_Nsk r))]).
+
+Lemma tie_rfc_kem_tables :
+  gen_hpke_kemLengths =
+  map rfc_row [HpkeRfc.kem_table HpkeRfc.KEM_P256_SHA256; HpkeRfc.kem_table HpkeRfc.KEM_P384_SHA384;
+               HpkeRfc.kem_table HpkeRfc.KEM_P521_SHA512; HpkeRfc.kem_table HpkeRfc.KEM_X25519_SHA256;
+               HpkeRfc.pq_kem_table HpkeRfc.KEM_ML_KEM_768; HpkeRfc.pq_kem_table HpkeRfc.KEM_ML_KEM_1024;
+               HpkeRfc.pq_kem_table HpkeRfc.KEM_X_WING].
+Proof. vm_compute. reflexivity. Qed.
+
+Lemma tie_rfc_kdf_aead_ids :
+  HpkeRfc.rfc_kdf_id HpkeRfc.KDF_HKDF_SHA256 = gen_hpke_HKDFSHA256 /\
+  HpkeRfc.rfc_kdf_id HpkeRfc.KDF_HKDF_SHA384 = gen_hpke_HKDFSHA384 /\
+  HpkeRfc.rfc_kdf_id HpkeRfc.KDF_HKDF_SHA512 = gen_hpke_HKDFSHA512 /\
+  HpkeRfc.rfc_aead_id HpkeRfc.AEAD_AES_128_GCM = gen_hpke_AES128GCM /\
+  HpkeRfc.rfc_aead_id HpkeRfc.AEAD_AES_256_GCM = gen_hpke_AES256GCM /\
+  HpkeRfc.rfc_aead_id HpkeRfc.AEAD_ChaCha20Poly1305 = gen_hpke_ChaCha20Poly1305.
+Proof. repeat split; reflexivity. Qed.
